@@ -144,3 +144,84 @@ def replay_case(n, inc, incR, flags, rt, rflag, variant="lc", preset=()):
     pre = f"; already flagged before the analysis: {[NAMES[i] for i in range(n) if preset and preset[i]]}" if preset and any(preset) else ""
     sig = f"analyze_templates on templates {NAMES[:n]}: {'; '.join(edges) or 'no inclusions'}; flagged {[NAMES[i] for i in range(n) if flags[i]]}{red}{pre}"
     return (sig, got != want, f"marked {sorted(got)}, closure is {sorted(want)}")
+
+
+# ---------------------------------------------------------------- a redirect to a redirect (chain R2 -> R -> template)
+R2NAME = "Ss"
+
+
+def analyze_chain(c, n, inc, incR, rinc, flags, rt, rflag):
+    """as analyze(), plus: the redirect page R may itself include templates (rinc[j]) and a second redirect page R2 points
+    at R.  R2 is a redirect to R: it is marked exactly when R is in the closure."""
+    setup(c, n, rt)
+    c.add_page("Template:" + R2NAME, 10, None, redirect_to="Template:" + RNAME)
+    type(c).get_page.cache_clear()
+    used = {NAMES[i]: {NAMES[j] for j in range(n) if inc[i][j]} | ({RNAME} if incR[i] else set()) for i in range(n)}
+    used[RNAME] = {NAMES[j] for j in range(n) if rinc[j]}
+    used[R2NAME] = set()
+    flg = {NAMES[i]: flags[i] for i in range(n)}
+    flg[RNAME], flg[R2NAME] = rflag, False
+
+    def chk(wtp, page: Page):
+        nm = page.title.removeprefix("Template:")
+        return set(used[nm]), flg[nm]
+
+    c.analyze_templates(chk)
+    return {p.title.removeprefix("Template:") for p in c.get_all_pages([10]) if p.need_pre_expand}
+
+
+def reference_chain(n, inc, incR, rinc, flags, rt, rflag):
+    nodes = NAMES[:n] + [RNAME]
+    edges = {NAMES[i]: {NAMES[j] for j in range(n) if inc[i][j]} | ({RNAME} if incR[i] else set()) for i in range(n)}
+    edges[RNAME] = {NAMES[j] for j in range(n) if rinc[j]}
+    marked = {NAMES[i] for i in range(n) if flags[i]} | ({RNAME} if rflag else set())
+    changed = True
+    while changed:
+        changed = False
+        for x in nodes:
+            if x not in marked and edges[x] & marked:
+                marked.add(x)
+                changed = True
+    out = set(marked)
+    # redirects from or to a template of the closure (one step)
+    if rt < n and NAMES[rt] in marked:
+        out.add(RNAME)
+    if RNAME in marked:
+        out.add(R2NAME)
+        if rt < n:
+            out.add(NAMES[rt])
+    return out
+
+
+def _agree_chain(n, inc, incR, rinc, flags, rt, rflag) -> bool:
+    try:
+        got = _with_alarm(60, analyze_chain, ctx, n, inc, incR, rinc, flags, rt, rflag)
+    except NotTerminating:
+        ctx.db_conn.rollback()
+        return False
+    return got == reference_chain(n, inc, incR, rinc, flags, rt, rflag)
+
+
+def agree_chain(n, inc, incR, rinc, flags, rt, rflag) -> bool:
+    from crosshair.tracers import NoTracing, is_tracing
+
+    if is_tracing():
+        inc = [[_pick(e, 2) for e in row] for row in inc]
+        incR = [True if r else False for r in incR]
+        rinc = [True if r else False for r in rinc]
+        with NoTracing():
+            return _agree_chain(n, inc, incR, rinc, flags, rt, rflag)
+    return _agree_chain(n, inc, incR, rinc, flags, rt, rflag)
+
+
+def replay_chain(n, inc, incR, rinc, flags, rt, rflag):
+    c = Wtp(quiet=True, quiet_output=True)
+    want = reference_chain(n, inc, incR, rinc, flags, rt, rflag)
+    try:
+        got = _with_alarm(60, analyze_chain, c, n, inc, incR, rinc, flags, rt, rflag)
+    except NotTerminating as e:
+        got = {"<" + str(e) + ">"}
+    edges = [f"{NAMES[i]} includes {NAMES[j]}" for i in range(n) for j in range(n) if inc[i][j]]
+    edges += [f"{NAMES[i]} includes {RNAME}" for i in range(n) if incR[i]] + [f"{RNAME} includes {NAMES[j]}" for j in range(n) if rinc[j]]
+    sig = f"analyze_templates on templates {NAMES[:n]}: {'; '.join(edges) or 'no inclusions'}; flagged {[NAMES[i] for i in range(n) if flags[i]]}; redirects {R2NAME} -> {RNAME} -> {NAMES[rt] if rt < n else 'Nowhere'}{' (' + RNAME + ' flagged)' if rflag else ''}"
+    return (sig, got != want, f"marked {sorted(got)}, closure plus redirects is {sorted(want)}")
